@@ -84,6 +84,8 @@ Proof.
     destruct (lookup_all_in _ _ _ Hsibs sib Hsib) as (r2 & Hr2 & El2).
     eapply Hn; eauto. apply in_app_iff. right. apply in_flat_map. exists r. auto.
   - reflexivity.
+  - reflexivity.
+  - reflexivity.
 Qed.
 
 Lemma loop_ext_in o top s ev ev' :
